@@ -133,3 +133,50 @@ class Check:
         for r in sorted(per_rule):
             print("   %-28s %5d instances%s" % (r, per_rule[r], ("  (floor %d)" % self.floors[r]) if r in self.floors else ""))
         return 1 if new else 0
+
+
+class Renamed:
+    """view of a Check that records rule ids under another property prefix (rules shared between properties)"""
+    def __init__(self, ck, src, dst):
+        self.ck, self.src, self.dst = ck, src, dst
+        self.floors = _FloorProxy(self)
+
+    def _r(self, rid):
+        return self.dst + rid[len(self.src):] if rid.startswith(self.src) else rid
+
+    def rule(self, rid, desc, floor=None):
+        self.ck.rule(self._r(rid), desc, floor)
+
+    def ok(self, rule, key, detail=None, nontrivial=True):
+        self.ck.ok(self._r(rule), key, detail, nontrivial)
+
+    def bad(self, rule, key, msg, loc=None, detail=None):
+        self.ck.bad(self._r(rule), key, msg, loc, detail)
+
+    def missing_anchor(self, name, rule):
+        self.ck.missing_anchor(name, self._r(rule))
+
+    def count(self, name, n=1):
+        self.ck.count(name, n)
+
+    def note(self, s):
+        pass
+
+    @property
+    def instances(self):
+        return self.ck.instances
+
+    @property
+    def rules(self):
+        return self.ck.rules
+
+
+class _FloorProxy:
+    def __init__(self, r):
+        self.r = r
+
+    def __setitem__(self, k, v):
+        self.r.ck.floors[self.r._r(k)] = v
+
+    def __getitem__(self, k):
+        return self.r.ck.floors[self.r._r(k)]
